@@ -199,6 +199,22 @@ Fixpoint tlex_fuel (n : nat) (names : list string) (s : string) : tlres :=
                       | Some (d, rest') => tlcons (XRight d) (tlex_fuel n names rest')
                       | None => TLErr
                       end
+                    else if (w =? "operatorname")%string then
+                      (* \operatorname{word}: the word is a function name, never a product of symbols *)
+                      match snd (span is_space rest) with
+                      | String c2 r2 =>
+                          if Ascii.eqb c2 "{" then
+                            let (f, r3) := span is_letter r2 in
+                            match r3 with
+                            | String c3 r4 =>
+                                if Ascii.eqb c3 "}" then
+                                  tlcons (XCmd w) (tlcons XLB (tlcons (XWord f) (tlcons XRB (tlex_fuel n names r4))))
+                                else TLErr
+                            | EmptyString => TLErr
+                            end
+                          else TLErr
+                      | EmptyString => TLErr
+                      end
                     else tlcons (XCmd w) (tlex_fuel n names rest)
                   else
                     (* \, \; \! \: \space : spacing, dropped;  other escaped characters are kept as commands *)
